@@ -126,8 +126,10 @@ def run(shard, ctx):
                 ctx.fail("C04:%s.facade_raises.%s" % (f.name, type(e).__name__), "%s: facade %s raised %s: %s" % (f.name, method, type(e).__name__, e),
                          dict(wit, method=method, kwargs=kw), exc=e)
                 continue
-            if f.name == "readcd" and len(cmd.datain) < len(buf):
-                ctx.count("facade_buffer_smaller_than_response")
+            if len(cmd.datain) < len(b) and f.name == "readcd":
+                # READ CD announces sectors, not bytes: the buffer the facade allocated must hold the sectors it asked for
+                ctx.fail("C04:readcd.facade_buffer_too_small", "readcd(%r) allocated %d bytes, the %d requested sectors of this layout are %d bytes"
+                         % (kw, len(cmd.datain), v["_tl"], len(b)), dict(wit, method=method, kwargs=kw))
                 continue
             judge(ctx, f, "facade", v, b, res, dict(wit, method=method, kwargs=kw))
 
